@@ -122,15 +122,13 @@ IsScalarT(i) == Tag(i) = "type" /\ ~Has(i, "length") /\ Val(i, "presence") # "co
 IsArrayT(i) == Tag(i) = "type" /\ Has(i, "length")
 IsConstT(i) == Tag(i) = "type" /\ Val(i, "presence") = "constant"
 TopWhere(P(_)) == Sel(TopTypes, P)
+\* every name a reference could be pointed at: all top-level types of the base (in the given and in the other
+\* case), labelled by role and kind, and the name of a message
+TargetLabel(t) == RoleOfTop(t) \o "-" \o Tag(t) \o "(" \o Val(t, "name") \o ")"
 KindTargets ==
-  MapL(Take(TopWhere(IsScalarT), 1), LAMBDA t : <<"to-scalar-type", Val(t, "name")>>) \o
-  MapL(Take(TopWhere(IsArrayT), 1), LAMBDA t : <<"to-array-type", Val(t, "name")>>) \o
-  MapL(Take(TopWhere(IsConstT), 1), LAMBDA t : <<"to-constant-type", Val(t, "name")>>) \o
-  MapL(Take(TopWhere(LAMBDA t : Tag(t) = "composite" /\ RoleOfTop(t) = "public"), 1), LAMBDA t : <<"to-composite", Val(t, "name")>>) \o
-  MapL(Take(TopWhere(LAMBDA t : Tag(t) = "composite" /\ RoleOfTop(t) = "header"), 1), LAMBDA t : <<"to-header-composite", Val(t, "name")>>) \o
-  MapL(Take(TopWhere(LAMBDA t : Tag(t) = "composite" /\ RoleOfTop(t) = "data"), 1), LAMBDA t : <<"to-data-composite", Val(t, "name")>>) \o
-  MapL(Take(TopWhere(LAMBDA t : Tag(t) = "enum"), 1), LAMBDA t : <<"to-enum", Val(t, "name")>>) \o
-  MapL(Take(TopWhere(LAMBDA t : Tag(t) = "set"), 1), LAMBDA t : <<"to-set", Val(t, "name")>>) \o
+  MapL(TopTypes, LAMBDA t : <<"to-" \o TargetLabel(t), Val(t, "name")>>) \o
+  MapL(Sel(TopTypes, LAMBDA t : CaseVariant(Val(t, "name")) # Val(t, "name")),
+       LAMBDA t : <<"to-other-case-of-" \o TargetLabel(t), CaseVariant(Val(t, "name"))>>) \o
   MapL(Take(Messages, 1), LAMBDA m : <<"to-message-name", Val(m, "name")>>)
 
 ----------------------------------------------------------------------------
@@ -423,6 +421,30 @@ IncAct(label, edits, files) == Act("include", "IncludeGraph", "schema", label, e
 IncRoot(href, at) == Insert(Root, at, IncFrag(href))
 FirstTopName == IF Len(TopTypes) > 0 THEN Val(TopTypes[1], "name") ELSE "messageHeader"
 FirstMsg == IF Len(Messages) > 0 THEN <<[name |-> Val(Messages[1], "name"), id |-> Val(Messages[1], "id")]>> ELSE <<>>
+\* a file with k includes: the i-th one closes a cycle (to the file itself / its parent / its grandparent),
+\* the others are small valid fragments (an included file may hold several top-level nodes)
+LeafName(j) == "l" \o NumStr(j) \o ".xml"
+Leaf(j) == Frag(LeafName(j), <<>>, <<"inc_l" \o NumStr(j)>>)
+IncList(k, i, target) == [j \in 1 .. k |-> IF j = i THEN target ELSE LeafName(j)]
+Leaves(k, i) == Flat([j \in 1 .. k |-> IF j = i THEN <<>> ELSE <<Leaf(j)>>])
+KI(k, i) == NumStr(k) \o "-includes/through-no-" \o NumStr(i)
+CycleMutsK ==
+  Flat([kk \in 1 .. 2 |-> LET k == kk + 1 IN Flat([i \in 1 .. k |->
+    <<IncAct("cycle-to-itself/" \o KI(k, i), <<IncRoot("a.xml", "first")>>,
+             <<Frag("a.xml", IncList(k, i, "a.xml"), <<>>)>> \o Leaves(k, i)),
+      IncAct("cycle-to-parent/" \o KI(k, i), <<IncRoot("a.xml", "last")>>,
+             <<Frag("a.xml", <<"b.xml">>, <<>>), Frag("b.xml", IncList(k, i, "a.xml"), <<>>)>> \o Leaves(k, i)),
+      IncAct("cycle-to-parent-both-with-several/" \o KI(k, i), <<IncRoot("a.xml", "first")>>,
+             <<Frag("a.xml", IncList(k, i, "b.xml"), <<>>), Frag("b.xml", IncList(k, i, "a.xml"), <<>>)>> \o Leaves(k, i)),
+      IncAct("cycle-to-grandparent/" \o KI(k, i), <<IncRoot("a.xml", "first")>>,
+             <<Frag("a.xml", <<"b.xml">>, <<>>), Frag("b.xml", <<"c.xml">>, <<>>), Frag("c.xml", IncList(k, i, "a.xml"), <<>>)>> \o Leaves(k, i)),
+      \* the schema file itself has k includes, the i-th leads into a fragment that includes itself second
+      IncAct("cycle-entered-from-schema/" \o KI(k, i), [j \in 1 .. k |-> Insert(Root, "last", IncFrag(IF j = i THEN "a.xml" ELSE LeafName(j)))],
+             <<Frag("a.xml", <<"l9.xml", "a.xml">>, <<>>), Leaf(9)>> \o Leaves(k, i)),
+      \* no cycle at all: k includes of distinct valid fragments
+      IncAct("acyclic/" \o KI(k, i), <<IncRoot("a.xml", "first")>>,
+             <<Frag("a.xml", IncList(k, i, "b.xml"), <<>>), Frag("b.xml", <<>>, <<"inc_b">>)>> \o Leaves(k, i))>>])])
+
 IncludeMuts ==
   <<IncAct("missing-file", <<IncRoot("nosuch.xml", "first")>>, NoFile),
     IncAct("missing-file-absolute", <<IncRoot("/nonexistent/dir/x.xml", "last")>>, NoFile),
@@ -447,7 +469,13 @@ IncludeMuts ==
     IncAct("not-xml", <<IncRoot("a.xml", "first")>>, <<File("a.xml", "garbage", <<>>, <<>>, <<>>, 0)>>),
     IncAct("empty-file", <<IncRoot("a.xml", "first")>>, <<File("a.xml", "empty", <<>>, <<>>, <<>>, 0)>>),
     IncAct("copy-of-main", <<IncRoot("a.xml", "last")>>, <<File("a.xml", "copy-of-main", <<>>, <<>>, <<>>, 0)>>),
-    IncAct("chain-of-60", <<IncRoot("ch1.xml", "first")>>, <<File("ch", "chain", <<>>, <<>>, <<>>, 60)>>)>> \o
+    IncAct("chain-of-60", <<IncRoot("ch1.xml", "first")>>, <<File("ch", "chain", <<>>, <<>>, <<>>, 60)>>),
+    IncAct("chain-of-50-two-includes-per-file", <<IncRoot("cc1.xml", "first")>>, <<File("cc", "chain2", <<>>, <<>>, <<>>, 50)>>),
+    IncAct("diamond-with-repeated-includes", <<IncRoot("a.xml", "first"), IncRoot("b.xml", "first"), IncRoot("a.xml", "last")>>,
+           <<Frag("a.xml", <<"c.xml", "c.xml">>, <<>>), Frag("b.xml", <<"c.xml", "a.xml">>, <<>>), Frag("c.xml", <<>>, <<>>)>>),
+    IncAct("diamond-with-repeated-includes-and-definitions", <<IncRoot("a.xml", "first"), IncRoot("b.xml", "last")>>,
+           <<Frag("a.xml", <<"c.xml", "c.xml">>, <<"inc_a">>), Frag("b.xml", <<"c.xml">>, <<"inc_b">>), Frag("c.xml", <<>>, <<"inc_c">>)>>)>> \o
+  CycleMutsK \o
   Flat(MapL(TypesEls, LAMBDA ty : <<IncAct("include-inside-types", <<Insert(ty, "first", IncFrag("a.xml"))>>, <<Frag("a.xml", <<>>, <<"inc_a">>)>>)>>)) \o
   Flat(MapL(Take(Messages, 1), LAMBDA m : <<IncAct("include-inside-message", <<Insert(m, "first", IncFrag("nosuch.xml"))>>, NoFile)>>))
 
@@ -651,7 +679,7 @@ ActionOK(a) ==
   /\ \A k \in 1 .. Len(a.edits) : EditOK(a.edits[k])
   /\ Len(a.edits) + Len(a.files) + Len(a.argv) >= 1
   /\ a.env \in {"", "nobody"}
-  /\ \A k \in 1 .. Len(a.files) : a.files[k].kind \in {"frag", "garbage", "empty", "copy-of-main", "chain"}
+  /\ \A k \in 1 .. Len(a.files) : a.files[k].kind \in {"frag", "garbage", "empty", "copy-of-main", "chain", "chain2"}
 DepthOK == Len(picked) <= MaxDepth /\ MaxDepth <= 2
 CaseWellFormed == \A k \in 1 .. Len(picked) : picked[k] \in 1 .. Len(tab) /\ ActionOK(tab[picked[k]])
 PairOK == Len(picked) = 2 => (picked[1] # picked[2] /\ Compatible(tab[picked[1]], tab[picked[2]]))
